@@ -41,6 +41,9 @@ def gen_inputs(ctx):
     # a disulfide bridge (non-titrating cysteines stay out of every charge curve) and same-label twin residues
     out.append(("ss-bridge", pdbgen.text(pdbgen.ss_fragment())))
     out.append(("nterm-asp", pdbgen.text(pdbgen.nterm_asp_fragment())))
+    # a nucleotide: groups whose model pKa comes from custom_model_pkas (DA-N1 3.82, DA-OP1 1.00 ...), not from the table of their type
+    nl, _ = pdbgen.multichain(rnd, nchains=1)
+    out.append(("nucleotide", pdbgen.text(pdbgen.add_nucleotide(nl))))
     for i in range(2 if ctx.quick() else 20):
         for _ in range(200):
             lines, ids = pdbgen.multichain(rnd, nchains=rnd.randint(1, 2), separation=15.0)
